@@ -16,6 +16,7 @@ import (
 	"sort"
 	"strings"
 	"sync"
+	"sync/atomic"
 	"time"
 
 	"github.com/pilosa/pilosa"
@@ -352,7 +353,7 @@ func (s *Sim) ListenerPos() string {
 
 // WaitListener waits until the listener is held at a gate.
 func (s *Sim) WaitListener(d time.Duration) bool {
-	return poll(d, func() bool { return s.ListenerPos() != "" })
+	return Poll(d, func() bool { return s.ListenerPos() != "" })
 }
 
 // ReleaseListener lets the listener run to its next gate.
@@ -372,7 +373,7 @@ func (s *Sim) ReleaseListener() bool {
 // ReleaseRunner lets job j's run() proceed (waits until it is at its gate).
 func (s *Sim) ReleaseRunner(job int, d time.Duration) bool {
 	var g chan struct{}
-	ok := poll(d, func() bool {
+	ok := Poll(d, func() bool {
 		s.mu.Lock()
 		defer s.mu.Unlock()
 		if job < 1 || job > len(s.jobIDs) {
@@ -446,7 +447,15 @@ func poll(d time.Duration, f func() bool) bool {
 	}
 }
 
-// Within runs f and reports whether it returned within d.
+// longWaits is the number of times a wait that missed its deadline is extended (by four
+// more deadlines) before it is declared a failure: on a loaded machine a goroutine can be
+// starved for seconds, and a handler that is merely slow must not be reported as stuck. The
+// budget keeps a run with many genuinely stuck cases from taking forever.
+var longWaits int32 = 12
+
+func extend() bool { return atomic.AddInt32(&longWaits, -1) >= 0 }
+
+// Within runs f and reports whether it returned within d (extended once, see longWaits).
 func Within(d time.Duration, f func()) bool {
 	ch := make(chan struct{})
 	go func() { f(); close(ch) }()
@@ -454,8 +463,27 @@ func Within(d time.Duration, f func()) bool {
 	case <-ch:
 		return true
 	case <-time.After(d):
+	}
+	if !extend() {
 		return false
 	}
+	select {
+	case <-ch:
+		return true
+	case <-time.After(4 * d):
+		return false
+	}
+}
+
+// Poll polls f until it holds or d has passed (extended once, see longWaits).
+func Poll(d time.Duration, f func() bool) bool {
+	if poll(d, f) {
+		return true
+	}
+	if d == 0 || !extend() {
+		return false
+	}
+	return poll(4*d, f)
 }
 
 // ------------------------------------------------------------------ observables
